@@ -472,7 +472,7 @@ pub fn run_likely_miri(ctx: &mut Ctx) {
     }
     let mut keys: Vec<(Option<String>, Option<String>, Option<String>, (Option<u64>, Option<u32>, Option<u32>), &'static str)> = vec![];
     let mut idx = 0usize;
-    let mut take = |idx: &mut usize| -> bool {
+    let take = |idx: &mut usize| -> bool {
         let t = (*idx / stride) % n == sh && *idx % stride == 0;
         *idx += 1;
         t
